@@ -469,6 +469,7 @@ Definition revision (input : bytes) : M bytes :=
               if beqb c2 c_colon && beqb c1 x30 then Some (must (dcall (CIndex path 0)) ;;; ret [])
               else if beqb c2 c_colon && beqb c1 x31 then Some (must (dcall (CIndex path 1)) ;;; ret [])
               else if beqb c2 c_colon && beqb c1 x32 then Some (must (dcall (CIndex path 2)) ;;; ret [])
+              else if beqb c2 c_colon && beqb c1 x33 then Some (must (dcall (CIndex path 3)) ;;; ret [])
               else Some (must (dcall (CIndex t 0)) ;;; ret [])
             | [] => Some (must (dcall (CIndex t 0)) ;;; ret [])
             end
